@@ -31,6 +31,15 @@ CHECKS = {
             'fields, base compatible with it) for every ordered pair of the ~420 specs; containment is decided exactly '
             'inside the grammar because the pool holds a representative of every cell of every atomic predicate.',
             BASE_NOTE),
+    'C05': ('E1-statespace', 'model_checking',
+            'bounded-exhaustive enumeration of the value grammar through every serialization route + explicit-state BFS over save/load/append histories on both file systems against a dict/list model',
+            'Every value of the grammar (special floats, big ints, hostile strings, tuples, str/int keys incl. negative, '
+            'symbolic containers, objects, classes, functions, every value spec of the C04 grammar, schemas, DNASpecs, DNAs '
+            'with metadata, hyper primitives) through to_json, the string form, pickle, deepcopy and clone: equal, same type, '
+            'hash and encoding fixpoint, well-formed tree; every history of save / overwrite / append / rewrite / load up to '
+            'depth 3 (4 thorough) over colliding paths on the in-memory and the standard file system, every path read back '
+            'after every step.',
+            BASE_NOTE),
     'C06': ('E2-enum', 'model_checking',
             'bounded-exhaustive enumeration of a value universe; every law evaluated on all ordered pairs and triples',
             'eq reflexive/symmetric/transitive, ne = not eq, eq => equal hash, operator agreement for opted-in classes, lt '
